@@ -17,7 +17,7 @@ import traceback
 from typing import Any, Callable, Dict, List, Optional, Tuple
 
 VERIF = os.path.dirname(os.path.dirname(os.path.abspath(__file__)))
-BITS = 1 << 24
+BITS = 1 << 27
 
 
 def item_seed(master: int, prop: str, stratum: str, i: int) -> int:
@@ -67,6 +67,12 @@ def run_scenario(prop: Prop, scn: Dict[str, Any]):
     if getattr(run, "cap", None):
         raise RuntimeError("run cap exceeded: %s" % run.cap)
     viols, counters = prop.judge(scn, run)
+    if getattr(run, "deadlock", None) and "silent" not in json.dumps(scn.get("steps", [])):
+        # bounded liveness: the peer answered (or closed) every time, no fault is pending, yet the code under test
+        # waits forever
+        key = "%s/hang" % prop.pid
+        if not any(k.endswith("/hang") or "/hang/" in k for k, _ in viols):
+            viols = list(viols) + [(key, "the event loop went idle forever with an operation still pending: %s" % run.deadlock)]
     return run, viols, counters
 
 
@@ -369,7 +375,7 @@ def run_check(pid: str, tier: str, master: int) -> int:
             "evaluations": agg["runs"],
             "distinct_nontrivial": max(distinct, 0),
             "rule": prop.rule + " | distinct = number of distinct event-log digests (sha256 of every socket call, "
-                    "network event, operation and callback, bucketed into a 2^24-bit map, so a lower bound) among runs "
+                    "network event, operation and callback, bucketed into a 2^27-bit map, so a lower bound) among runs "
                     "with at least one judged observation and (>=2 steps or >=1 fault fired)",
             "samples": [agg["samples"][k] for k in sorted(agg["samples"])][:3],
             "exhaustive": False,
